@@ -146,26 +146,30 @@ def procCase (inp impl : String) : CaseOut :=
       let tr := it.evs
       let alive := it.open_ && it.reg
       let nPills := (pillsOf batches.flatten).length
-      let spec :=
-        if !it.ended then "FAIL:harness no end record"
-        else if it.escaped then
-          (if tr.contains (.ev .maxRestarts) then "FAIL:C05+C06 a panic escaped the actor after the restart budget was exhausted"
-           else "FAIL:C05 a panic escaped the actor")
-        else if !it.flags.isEmpty then s!"FAIL:C07 malformed or flagged token {it.flags.headD ""}"
-        else if !noReopen tr then "FAIL:C02+C04 the inbox was re-opened after it had been stopped (a second worker can run: mutual exclusion is lost)"
-        else if !lifecycleOK tr then "FAIL:C04 life-cycle shape violated (Initialized, Started, messages, one final Stopped per incarnation)"
-        else if !allWrapped mw tr then "FAIL:C13 a delivery bypassed (part of) the middleware chain"
-        else if !replayPrefixOK batches tr then s!"FAIL:C05 user deliveries {repr (userRecvs tr)} are not a prefix of the history (lost, duplicated, reordered or wrong sender)"
-        else if !replayCompleteOK batches tr alive then "FAIL:C05 actor alive at the end but not every message was delivered"
-        else if !restartsOK max tr then "FAIL:C06 restart events not numbered 1..n or more than MaxRestarts"
-        else if !afterMaxOK tr then "FAIL:C06 budget exhausted but the actor was not stopped cleanly"
-        else if !cancelOK batches tr then "FAIL:C07 a stop context became done before Stopped+unregistration (or before the drain)"
-        else if !allPillsCancelled batches tr then
-          -- was the actor stopped by something else first (another pill's cancel, or the restart budget)?
-          if tr.contains (.ev .maxRestarts) || !(cancelsOf tr).isEmpty then
-            s!"FAIL:C07 pill left behind: never cancelled because the actor was stopped by another pill or by the restart budget first (pills={nPills})"
-          else s!"FAIL:C07 pill lost: never cancelled although nothing else stopped the actor (pills={nPills})"
-        else "ok"
+      -- every acceptor is evaluated on its own; the verdict names all properties that fail
+      let checks : List (String × Bool × String) := [
+        ("harness", it.ended, "no end record"),
+        ("C05", !it.escaped, "a panic escaped the actor"),
+        ("C06", !(it.escaped && tr.contains (.ev .maxRestarts)), "a panic escaped after the restart budget was exhausted"),
+        ("C07", it.flags.isEmpty, s!"malformed or flagged token {it.flags.headD ""} (a poison pill visible to Receive?)"),
+        ("C02", noReopen tr, "the inbox was re-opened after it had been stopped (a second worker can run: mutual exclusion is lost)"),
+        ("C04", noReopen tr && lifecycleOK tr, "life-cycle shape violated (Initialized, Started, messages, one final Stopped per incarnation; nothing afterwards)"),
+        ("C13", allWrapped mw tr, "a delivery bypassed (part of) the middleware chain or ran it out of order"),
+        ("C05", replayPrefixOK batches tr, s!"user deliveries {repr (userRecvs tr)} are not a prefix of the history (lost, duplicated, reordered or wrong sender)"),
+        ("C05", replayCompleteOK batches tr alive, "actor alive at the end but not every message was delivered"),
+        ("C06", restartsOK max tr, "restart events not numbered 1..n or more than MaxRestarts"),
+        ("C06", afterMaxOK tr && (!tr.contains (.ev .maxRestarts) || (!it.open_ && !it.reg)),
+           "budget exhausted but the actor was not stopped cleanly (inbox stop, unregister, one Stopped, stopped event, nothing afterwards)"),
+        ("C07", cancelOK batches tr, "a stop context became done before Stopped+unregistration (or before the drain)")]
+      let failed := checks.filter fun c => !c.2.1
+      let pillFail : List (String × Bool × String) :=
+        if !failed.isEmpty || allPillsCancelled batches tr then []
+        else if tr.contains (.ev .maxRestarts) || !(cancelsOf tr).isEmpty then
+          [("C07", false, s!"pill left behind: never cancelled because the actor was stopped by another pill or by the restart budget first (pills={nPills})")]
+        else [("C07", false, s!"pill lost: never cancelled although nothing else stopped the actor (pills={nPills})")]
+      let allFailed := failed ++ pillFail
+      let spec := if allFailed.isEmpty then "ok" else
+        "FAIL:" ++ String.intercalate "+" (allFailed.map (·.1)).eraseDups ++ " " ++ String.intercalate " | " (allFailed.map (·.2.2))
       let nPanics := (script.filter (· ≠ .ok)).length
       let rs := restartNumbers s.trace
       let tags :=
